@@ -160,7 +160,7 @@ SWEEP_MODULES2 = ['crop', 'separate_fields', 'row_join', 'rtp_pcm_pack', 'rtp_pc
 SWEEP_FILTERS = ['filter_blend', 'audio_max', 'audio_bar', 'audio_graph', 'zoneplate', 'zoneplate_source']
 SWEEP_TS = ['ts_align', 'ts_metadata_generator', 'ts_pcr_interpolator', 'ts_pid_filter', 'ts_tstd', 'ts_sync', 'ts_check']
 ENGINES['esweep'] = {
-    'src': ['harness/esweep.c'],
+    'src': ['harness/esweep.c', 'shim/simd_stubs.c'],
     'inc_first': ['shim'],
     'sim_src': ['sim/alloc.c', 'sim/umem_sim.c', 'sim/upump_sim.c'],
     'repo_src': BUF_SRC + ['lib/upipe/upump_common.c', 'lib/upipe/uprobe_upump_mgr.c', 'lib/upipe/uprobe_uref_mgr.c',
@@ -168,16 +168,19 @@ ENGINES['esweep'] = {
                            'lib/upipe/uuri.c'] +
                 ['lib/upipe-modules/upipe_%s.c' % m for m in SWEEP_MODULES + SWEEP_MODULES2] +
                 ['lib/upipe-filters/upipe_%s.c' % m for m in SWEEP_FILTERS] + ['lib/upipe-filters/zoneplate/videotestsrc.c'] +
-                ['lib/upipe-ts/upipe_%s.c' % m for m in SWEEP_TS] + ['lib/upipe-modules/upipe_auto_inner.c'],
+                ['lib/upipe-ts/upipe_%s.c' % m for m in SWEEP_TS] + ['lib/upipe-modules/upipe_auto_inner.c'] +
+                ['lib/upipe-v210/upipe_v210enc.c', 'lib/upipe-v210/v210enc.c', 'lib/upipe-hls/upipe_hls_buffer.c'],
     'ldflags': ['-lm'],
     'track_alloc': True,
     'real': ['lib/upipe-modules/upipe_%s.c' % m for m in SWEEP_MODULES + SWEEP_MODULES2] +
             ['lib/upipe-filters/upipe_%s.c' % m for m in SWEEP_FILTERS] + ['lib/upipe-ts/upipe_%s.c' % m for m in SWEEP_TS[:5]] +
+            ['lib/upipe-v210/upipe_v210enc.c', 'lib/upipe-hls/upipe_hls_buffer.c'] +
             ['include/upipe/upipe_helper_output.h', 'include/upipe/upipe_helper_input.h', 'lib/upipe/uprobe_upump_mgr.c',
              'lib/upipe/uprobe_uref_mgr.c', 'lib/upipe/uprobe_ubuf_mem.c', 'lib/upipe/uprobe_uclock.c', 'lib/upipe/upump_common.c',
              'lib/upipe/uref_std.c', 'lib/upipe/udict_inline.c', 'lib/upipe/ubuf_block_mem.c'],
     'stubs': ['event loop (sim/upump_sim.c) and clock', 'allocator (umem_sim + malloc layer with injected failures)',
-              'application side: mock sinks (accept / refuse flow definitions), recording probe'],
+              'application side: mock sinks (accept / refuse flow definitions), recording probe',
+              'the assembly variants of the v210 packing loops resolve to the C reference functions (shim/simd_stubs.c)'],
 }
 
 FAM_MODULES = ['dup', 'even', 'play', 'trickplay', 'dejitter', 'audiocont', 'videocont', 'audio_merge', 'audio_split', 'grid', 'blit',
@@ -296,7 +299,7 @@ PIPE_RULE = ('one case = (pipeline, history, choices): a chain of 1-4 pipes draw
 PIPE_ASSUME = ['one simulated thread; nondeterminism = order of ready pumps, allocator failures, and the instants chosen by the plan',
                'the reference model of upipe_helper_output (drop without flow def / output, negotiate before sending, renegotiate after a change, invalid after a rejection) is the specification the real pipes are compared with',
                'once an injected allocation failure fired in a run, only the model-free oracles stay armed (order and exactly-once at sinks, flow def before data, ready/dead ordering, nothing left allocated)',
-               'reference models exist for the 12 pipe types of the E-pipe catalogue; the sweep engine (esweep) adds 53 more pipe types (29 block pass-through / buffering / packetising types, 19 picture and sound filters, sources and bins, 5 transport stream pipes fed complete flow definitions and real picture / sound buffers) under model-free oracles: lifecycle (C01, C04), order / same payload / immediate delivery where the pipe type promises them, completeness after a drain (sinks that block the pump they are fed from and let go again, loop run dry, clock far ahead) and release of the blocked source pump for the 16 types documented never to drop (C05), option read-back plus a twin execution of the same history without its getters and without the setters the pipe rejected, whose outputs and events must be identical (C20)']
+               'reference models exist for the 12 pipe types of the E-pipe catalogue; the sweep engine (esweep) adds 55 more pipe types (29 block pass-through / buffering / packetising types, 19 picture and sound filters, sources and bins, 5 transport stream pipes, v210enc and hls_buffer fed complete flow definitions and real picture / sound buffers) under model-free oracles: lifecycle (C01, C04), order / same payload / immediate delivery where the pipe type promises them, completeness after a drain (sinks that block the pump they are fed from and let go again, loop run dry, clock far ahead) and release of the blocked source pump for the 16 types documented never to drop (C05), option read-back plus a twin execution of the same history without its getters and without the setters the pipe rejected, whose outputs and events must be identical (C20)']
 for _p in ('C01', 'C04', 'C05', 'C20'):
     PROPS[_p] = {'engine': 'epipe', 'quick_time': 30, 'thorough_time': 600, 'rule': PIPE_RULE, 'assumptions': list(PIPE_ASSUME)}
 PROPS['C12'] = {'engine': 'epipe', 'engines': ['epipe', 'ethread', 'esweep'], 'quick_time': 30, 'thorough_time': 600,
@@ -304,7 +307,7 @@ PROPS['C12'] = {'engine': 'epipe', 'engines': ['epipe', 'ethread', 'esweep'], 'q
              'register / unregister up to 4 requests (sink latency, flow format) on the head pipe, provide an answer at a sink where a proxy is lodged '
              '(once or twice), set_output anywhere to NULL / back / a new sink, release a handle, data; probe providers answer at once or never; '
              'teardown with requests still registered or unregistered first. Distinct = distinct plan hash.'),
-    'assumptions': ['three engines: exact routing model over chains of the 12 E-pipe types (in-thread), worker pipes across queues (ethread), and bounds over the 53 sweep types: lodged at the current output between the requests seen travelling and those registered, nothing elsewhere, nothing after death, answers delivered once, no callback after unregister',
+    'assumptions': ['three engines: exact routing model over chains of the 12 E-pipe types (in-thread), worker pipes across queues (ethread), and bounds over the 55 sweep types: lodged at the current output between the requests seen travelling and those registered, nothing elsewhere, nothing after death, answers delivered once, no callback after unregister',
                     'request types exercised: sink latency and flow format']}
 PROPS['C20']['engines'] = ['epipe', 'estream', 'esweep']
 PROPS['C20']['quick_time'] = 45
@@ -435,7 +438,7 @@ for _p in ('C01', 'C04', 'C05', 'C20'):
 
 PROPS['C12'].update({
     'technique': 'deterministic simulation with fault injection: seeded register / unregister / set_output / provide / release histories over chains of real pipes; routing model evaluated after every operation (each registered request lodged exactly once at the sink the chain leads to), answers traced back through the proxies to the original callback; minimised replay files',
-    'level_note': 'sampling, not enumeration; exact routing model in-thread (12 pipe types), worker pipes across queues (ethread), bounds over 53 more pipe types (esweep); trusted base = sim/*, harness/epipe.c, harness/epipe_req.c, the request parts of harness/ethread.c and harness/esweep.c',
+    'level_note': 'sampling, not enumeration; exact routing model in-thread (12 pipe types), worker pipes across queues (ethread), bounds over 55 more pipe types (esweep); trusted base = sim/*, harness/epipe.c, harness/epipe_req.c, the request parts of harness/ethread.c and harness/esweep.c',
     'design_ref': 'DESIGN.md section 5, C12'})
 
 PROPS['C14'].update({
@@ -445,11 +448,11 @@ PROPS['C14'].update({
 
 LEVEL_TEXT = {
     'C14': 'Seeded byte streams and fragmentation schedules through the real aggregate, chunk_stream, ts_sync and ts_check pipes: outputs are the accepted input octets in order, unit sizes respect the configuration, TS units match a reference parser and start with the sync octet, stream parsers give the same units however the stream is cut, release terminates and leaves nothing allocated. Evidence, not proof.',
-    'C12': 'Seeded request histories over chains of real pipes built on upipe_helper_output: after every operation each registered request is lodged exactly once at the terminal the chain currently leads to and nowhere else, answers reach the original requester once with the value given, nothing calls back after unregister or after the chain is released. Also across worker queues (answers delivered on the thread of the requester) and, as bounds, over 53 more pipe types. Evidence, not proof.',
-    'C01': 'Seeded pipeline histories biased towards lifetime edges (re-plumbing to NULL, release in mid-run, teardown orders, allocation failures): every pipe throws dead exactly once, sinks are never destroyed while referenced by the application, all managers and probes return to one reference, nothing stays allocated; the same over 53 more pipe types (sweep) and 14 sub-pipe families (super-pipe and sub-pipes released in any order). Evidence, not proof.',
-    'C04': 'Seeded pipeline histories: ready first, dead exactly once and last, no event/data/flow definition after dead; every buffer reaches a sink under an accepted flow definition equal to the one in force (reference model and upstream getter), none after a rejection; the lifecycle clauses also over 53 more pipe types and 14 sub-pipe families, where the super-pipe must outlive its sub-pipes. Evidence, not proof.',
+    'C12': 'Seeded request histories over chains of real pipes built on upipe_helper_output: after every operation each registered request is lodged exactly once at the terminal the chain currently leads to and nowhere else, answers reach the original requester once with the value given, nothing calls back after unregister or after the chain is released. Also across worker queues (answers delivered on the thread of the requester) and, as bounds, over 55 more pipe types. Evidence, not proof.',
+    'C01': 'Seeded pipeline histories biased towards lifetime edges (re-plumbing to NULL, release in mid-run, teardown orders, allocation failures): every pipe throws dead exactly once, sinks are never destroyed while referenced by the application, all managers and probes return to one reference, nothing stays allocated; the same over 55 more pipe types (sweep) and 14 sub-pipe families (super-pipe and sub-pipes released in any order). Evidence, not proof.',
+    'C04': 'Seeded pipeline histories: ready first, dead exactly once and last, no event/data/flow definition after dead; every buffer reaches a sink under an accepted flow definition equal to the one in force (reference model and upstream getter), none after a rejection; the lifecycle clauses also over 55 more pipe types and 14 sub-pipe families, where the super-pipe must outlive its sub-pipes. Evidence, not proof.',
     'C05': 'Seeded pipeline histories against a reference model of every catalogue pipe: per sink the delivered sequence (numbers, payload, attributes, dates) equals the model, in order, exactly once; queues deliver held buffers first and in order, flush may only lose what was not delivered yet; 16 more pipe types documented never to drop deliver everything once their output takes data again, the loop ran and time passed, and leave the source pump unblocked. Evidence, not proof.',
-    'C20': 'Seeded pipeline histories with getter calls at random instants: getters return what the model says was set (a failed setter leaves the previous value), and a differential run without the getter calls must show identical histories; over 53 more pipe types the same history is executed again without its getters and without the setters the pipe rejected and must send the same buffers, flow definitions and events. Evidence, not proof.',
+    'C20': 'Seeded pipeline histories with getter calls at random instants: getters return what the model says was set (a failed setter leaves the previous value), and a differential run without the getter calls must show identical histories; over 55 more pipe types the same history is executed again without its getters and without the setters the pipe rejected and must send the same buffers, flow definitions and events. Evidence, not proof.',
     'C03': 'Seeded histories of block operations against a plain byte-string model, with allocation failures injected inside operations and out-of-range arguments; every handle is re-read (random probe first, then segment by segment) after every operation. Found and fixed seven defects. Evidence, not proof.',
     'C02': 'Block buffers: the C03 engine with write mappings (a granted write may only change the handle it was issued on; exclusive never-sliced memory must be writable). Picture and sound buffers: seeded histories of alloc / dup / resize / map-for-write / copy / replace / free against a model of areas, owners and windows: a write mapping is granted iff the area has one owner, every handle always reads what the model holds. Evidence, not proof.',
     'C10': 'Seeded histories of dictionary operations against a typed-map model, with storage-growth failures injected inside set/import/dup. Evidence, not proof.',
